@@ -14,6 +14,8 @@ def summary_of(d, meta):
     t = open(notes).read()
     n = meta["id"].rsplit("-", 1)[-1]
     m = re.search(r"^#+\s*Change\s*%s\b(.*?)(?=^#+\s*Change\s*\d|\Z)" % n, t, re.S | re.M | re.I)
+    if not m:  # mutation rounds: "## mutant1 - file, function", "### Mutant 1", "**mutant1.diff**", "- `mutant1.diff` ..."
+        m = re.search(r"^(?:#+\s*|\*\*|[-*]\s*`?|\d+\.\s*`?)?mutant\s*%s\b(.*?)(?=^(?:#+\s*|\*\*|[-*]\s*`?|\d+\.\s*`?)?mutant\s*\d|\Z)" % n, t, re.S | re.M | re.I)
     body = (m.group(1) if m else t)
     body = re.sub(r"\s+", " ", body).strip(" -—:#*")
     return body[:260]
